@@ -45,7 +45,7 @@ FN = {0: "sanitize_class_name", 1: "sanitize_module_name", 2: "sanitize_method_n
       4: "sanitize_tag_attr_name", 5: "normalize_tag_key", 6: "is_valid_python_identifier",
       7: "enum_member_str", 8: "enum_member_int", 9: "_to_module_name"}
 NAME_FNS = (0, 1, 2, 3, 4, 7, 8)   # outputs that must be identifiers
-CALL_FINDINGS = {1: "F20a", 2: "F20b", 3: "F20c", 4: "F20d", 5: "F20g", 6: "F20h", 7: "F20i"}
+CALL_FINDINGS = {1: "F20d", 2: "F20h"}
 
 # code points with interesting Unicode behaviour (case mappings that change length, digits that are not
 # decimal, word characters that are not identifier characters, case-ignorable / cased, astral planes)
@@ -626,17 +626,17 @@ def _main(chk: Check, impl: Impl, replay: dict | None) -> int:
     streams = [
         ("fields", field_cases, "list (str * bool) * list (str * str)", "run_fields",
          lambda c: f"({clist(cpair(cstr(k), cbool(q)) for k, q in c['input']['arg'])}, {c_pairs(c['obs'])})",
-         {1: "F20b"}, "Corr.C20.run_fields: dedup_fields = DataclassGenerator field mapping"),
+         {}, "Corr.C20.run_fields: dedup_fields = DataclassGenerator field mapping"),
         ("enum", enum_cases, "list str * option (list str)", "run_enum T",
          lambda c: f"({c_strs(c['input']['arg'])}, {copt(c['obs'], c_strs)})",
          {}, "Corr.C20.run_enum: dedup_enum = EnumGenerator member names"),
         ("ops", ops_cases, "list str * (list str * list str)", "run_ops",
          lambda c: f"({c_strs(c['input']['arg'])}, ({c_strs(c['obs'][0])}, {c_strs(c['obs'][1])}))",
-         {1: "F07a", 2: "F20b"}, "Corr.C20.run_ops: dedup_ops = _deduplicate_operation_ids_globally (once, twice)"),
+         {1: "F07a"}, "Corr.C20.run_ops: dedup_ops = _deduplicate_operation_ids_globally (once, twice)"),
         ("params", par_cases, "((list str * option str) * list str) * list str", "run_params",
          lambda c: f"((({c_strs(c['input']['arg'][0])}, {copt(c['input']['arg'][1], cstr)}), "
                    f"{c_strs(c['input']['arg'][2])}), {c_strs(c['obs'])})",
-         {1: "F04c", 2: "F04d", 3: "F20b"}, "Corr.C20.run_params: params = EndpointParameterProcessor.process_parameters names"),
+         {1: "F04c", 2: "F04d"}, "Corr.C20.run_params: params = EndpointParameterProcessor.process_parameters names"),
         ("schemas", sch_cases, "list str * option (list (str * nat))", "run_schemas",
          lambda c: f"({c_strs(c['input']['arg'])}, "
                    f"{copt(c['obs'], lambda l: clist(cpair(cstr(k), str(i) + '%nat') for k, i in l))})",
@@ -645,11 +645,11 @@ def _main(chk: Check, impl: Impl, replay: dict | None) -> int:
          lambda c: f"({c_strs(c['input']['arg'])}, "
                    + copt(c['obs'] if not isinstance(c['obs'], str) else None,
                           lambda l: clist(f"(({cstr(m)}, {cstr(k)}), {i}%nat)" for m, k, i in l)) + ")",
-         {1: "F20k", 2: "F20m", 3: "F20a"},
+         {1: "F20k", 2: "F20m"},
          "Corr.C20.run_pipeline: pipeline_models = model modules/classes written by generate_client"),
         ("models", mod_cases, "list str * list (str * str)", "run_models",
          lambda c: f"({c_strs(c['input']['arg'])}, {c_pairs(c['obs'])})",
-         {1: "F20a"}, "Corr.C20.run_models: dedup_models = ModelsEmitter generation_name / final_module_stem"),
+         {}, "Corr.C20.run_models: dedup_models = ModelsEmitter generation_name / final_module_stem"),
     ]
     all_cases = list(call_cases)
     for tag, cases, ctype, fn, pr, findings, rel in streams:
